@@ -1,7 +1,7 @@
 SPECIFICATION Spec
 CONSTANTS
   H = 4
-  NBufs = 2
+  NBufs = 1
   Design = "own"
   MaxBlocks = 255
   ReadSizes = {0, 1, 3, 4, 5, 9, 500, 509, 1012, 1016, 1019, 1020, 1021}
